@@ -222,6 +222,7 @@ import socketserver
 import socket
 import http.client
 from http.server import HTTPStatus, HTTPServer, BaseHTTPRequestHandler
+from urllib.parse import quote
 
 from time import sleep
 
@@ -262,6 +263,10 @@ TOKEN_CHARSET_FINDALL_PATTERN = re.compile(
     r'([^;, ]+)'
     r'(?:; *charset="?([^";, ]*)"?)?'
     r'(?:, *)?')
+
+# Characters that are sent unchanged in HTTP header values built from request
+# data: printable ASCII. Anything else is UTF-8 percent-escaped.
+HEADER_VALUE_SAFE_CHARS = ''.join(chr(c) for c in range(0x20, 0x7F))
 
 # Default maximum size of the indication queue.
 DEFAULT_MAX_IND_QUEUE_SIZE = 5000
@@ -723,6 +728,10 @@ class ListenerRequestHandler(BaseHTTPRequestHandler):
             # parser messages; a header value must be a single line.
             cim_error_details = \
                 cim_error_details.replace('\r', ' ').replace('\n', ' ')
+            # Header lines are sent latin-1 encoded; characters outside of
+            # printable ASCII are UTF-8 percent-escaped as in DSP0200.
+            cim_error_details = quote(cim_error_details,
+                                      safe=HEADER_VALUE_SAFE_CHARS)
             self.send_header("CIMErrorDetails", cim_error_details)
         if headers is not None:
             for header, value in headers:
